@@ -31,16 +31,52 @@ def _rank(e):
 
 
 class _Expr(ast.NodeTransformer):
+    def visit_UnaryOp(self, n):
+        self.generic_visit(n)
+        if isinstance(n.op, ast.Not):
+            o = n.operand
+            if isinstance(o, ast.UnaryOp) and isinstance(o.op, ast.Not) and False:
+                return o.operand
+            if isinstance(o, ast.Compare) and len(o.ops) == 1 and type(o.ops[0]) in NEGOP:
+                return ast.copy_location(ast.Compare(left=o.left, ops=[NEGOP[type(o.ops[0])]()], comparators=o.comparators), n)
+        return n
+
     def visit_Compare(self, n):
         self.generic_visit(n)
         if len(n.ops) == 1 and type(n.ops[0]) in SWAP:
             l, r = n.left, n.comparators[0]
             kl, kr = _rank(l), _rank(r)
-            swap = kl > kr or (kl == kr and ast.unparse(l) > ast.unparse(r) and isinstance(n.ops[0], (ast.Eq, ast.NotEq)))
+            # higher rank (constants, then calls) to the right; among equals: `==`/`!=` ordered by text, `>`/`>=` written as `<`/`<=`
+            swap = kl > kr or (kl == kr and ((ast.unparse(l) > ast.unparse(r) and isinstance(n.ops[0], (ast.Eq, ast.NotEq)))
+                                             or isinstance(n.ops[0], (ast.Gt, ast.GtE))))
             if swap:
                 m = ast.Compare(left=r, ops=[SWAP[type(n.ops[0])]()], comparators=[l])
                 return ast.copy_location(m, n)
         return n
+
+
+def _term(b):
+    return bool(b) and isinstance(b[-1], TERM)
+
+
+def _size(b):
+    return sum(1 for st in b for _ in ast.walk(st))
+
+
+NEGOP = {ast.Eq: ast.NotEq, ast.NotEq: ast.Eq, ast.Is: ast.IsNot, ast.IsNot: ast.Is, ast.In: ast.NotIn, ast.NotIn: ast.In}
+
+
+def _negative(t):
+    return (isinstance(t, ast.UnaryOp) and isinstance(t.op, ast.Not)) or \
+        (isinstance(t, ast.Compare) and len(t.ops) == 1 and isinstance(t.ops[0], (ast.NotEq, ast.IsNot, ast.NotIn)))
+
+
+def _neg(t):
+    if isinstance(t, ast.UnaryOp) and isinstance(t.op, ast.Not):
+        return t.operand
+    if isinstance(t, ast.Compare) and len(t.ops) == 1 and type(t.ops[0]) in NEGOP:
+        return ast.copy_location(ast.Compare(left=t.left, ops=[NEGOP[type(t.ops[0])]()], comparators=t.comparators), t)
+    return ast.copy_location(ast.UnaryOp(op=ast.Not(), operand=t), t)
 
 
 def _count_names(node, name):
@@ -97,6 +133,23 @@ def _block(stmts, fn_counts):
             init = ast.copy_location(ast.Assign(targets=[s.targets[0]], value=ast.copy_location(ast.List(elts=[], ctx=ast.Load()), s.value)), s)
             stmts[i:i + 1] = [init, loop]
             s = init
+        # 6b. `x = sum(E for T in I if C)` is `x = 0; for T in I: if C: x += E`
+        if isinstance(s, ast.Assign) and len(s.targets) == 1 and isinstance(s.targets[0], ast.Name) and isinstance(s.value, ast.Call) \
+                and isinstance(s.value.func, ast.Name) and s.value.func.id == 'sum' and len(s.value.args) == 1 and not s.value.keywords \
+                and isinstance(s.value.args[0], (ast.GeneratorExp, ast.ListComp)) and len(s.value.args[0].generators) == 1 \
+                and not s.value.args[0].generators[0].is_async \
+                and not any(isinstance(x, ast.Name) and x.id == s.targets[0].id for x in ast.walk(s.value)):
+            ge = s.value.args[0]
+            g = ge.generators[0]
+            x = s.targets[0].id
+            inner = ast.copy_location(ast.AugAssign(target=ast.Name(id=x, ctx=ast.Store()), op=ast.Add(), value=ge.elt), ge)
+            for c in reversed(g.ifs):
+                inner = ast.copy_location(ast.If(test=c, body=[inner], orelse=[]), c)
+            loop = ast.copy_location(ast.For(target=g.target, iter=g.iter, body=[inner], orelse=[], type_comment=None), ge)
+            ast.fix_missing_locations(loop)
+            init = ast.copy_location(ast.Assign(targets=[s.targets[0]], value=ast.copy_location(ast.Constant(0), ge)), s)
+            stmts[i:i + 1] = [init, loop]
+            s = init
         # recurse into compound statements
         for fld in ('body', 'orelse', 'finalbody'):
             b = getattr(s, fld, None)
@@ -108,6 +161,15 @@ def _block(stmts, fn_counts):
         if isinstance(s, ast.Match) if hasattr(ast, 'Match') else False:
             for c in s.cases:
                 c.body = _block(c.body, fn_counts)
+        if isinstance(s, ast.If) and not s.orelse and isinstance(s.test, ast.BoolOp) and isinstance(s.test.op, ast.And) and any(
+                isinstance(v.operand if isinstance(v, ast.UnaryOp) and isinstance(v.op, ast.Not) else v, ast.Await) for v in s.test.values[1:]):
+            # 8. `if a and [not] await f(): B` (no else) is `if a: if [not] await f(): B` - so that the awaited test can be named
+            vals = s.test.values
+            inner = ast.copy_location(ast.If(test=vals[-1], body=s.body, orelse=[]), vals[-1])
+            for v in reversed(vals[1:-1]):
+                inner = ast.copy_location(ast.If(test=v, body=[inner], orelse=[]), v)
+            s.test = vals[0]
+            s.body = _block([inner], fn_counts)
         if isinstance(s, ast.If):
             # 7. an awaited value tested by an `if` has a name: `if [not] await f(..)` is `v = await f(..); if [not] v`
             core = s.test.operand if isinstance(s.test, ast.UnaryOp) and isinstance(s.test.op, ast.Not) else s.test
@@ -120,17 +182,34 @@ def _block(stmts, fn_counts):
                 else:
                     s.test.operand = ref
                 out.append(bind)
-            # 3. if not c: A else: B
-            if s.orelse and isinstance(s.test, ast.UnaryOp) and isinstance(s.test.op, ast.Not):
-                s.test, s.body, s.orelse = s.test.operand, s.orelse, s.body
-            # 4. no else after a terminator
-            if s.orelse and s.body and isinstance(s.body[-1], TERM):
-                rest = s.orelse
-                s.orelse = []
-                out.append(s)
-                stmts[i + 1:i + 1] = rest
-                i += 1
-                continue
+            # 3/4. one shape for a two-way decision (see module docstring)
+            if s.orelse:
+                bt, ot = _term(s.body), _term(s.orelse)
+                if bt:
+                    # (both leave, or only the body leaves) no else after a terminator: the else branch is what follows
+                    rest = s.orelse
+                    s.orelse = []
+                    stmts[i + 1:i + 1] = rest
+                elif ot:
+                    # only the else branch leaves: it is the guard
+                    s.test, s.body, rest = _neg(s.test), s.orelse, s.body
+                    s.orelse = []
+                    stmts[i + 1:i + 1] = rest
+                elif _negative(s.test):
+                    s.test, s.body, s.orelse = _neg(s.test), s.orelse, s.body
+            if not s.orelse and _term(s.body):
+                rest = stmts[i + 1:]
+                if rest and isinstance(rest[-1], TERM) and not any(isinstance(x, (ast.FunctionDef, ast.AsyncFunctionDef, ast.ClassDef)) for x in rest):
+                    nb, nr = _size(s.body), _size(rest)
+                    if nr < nb or (nr == nb and _negative(s.test)):
+                        # `if t: LONG(leaves)` followed by SHORT(leaves) is `if not t: SHORT` followed by LONG: the shorter one is the guard
+                        long_ = s.body
+                        s.test = _neg(s.test)
+                        s.body = _block(rest, fn_counts)
+                        stmts[i + 1:] = long_
+                        out.append(s)
+                        out.extend(long_)       # already canonical
+                        return out
         # 5. single-use temporary read by the next statement
         if isinstance(s, ast.Assign) and len(s.targets) == 1 and isinstance(s.targets[0], ast.Name) and i + 1 < len(stmts):
             name = s.targets[0].id
@@ -197,7 +276,7 @@ def _propagate_generated_copies(fn):
             while isinstance(base, ast.Attribute):
                 base = base.value
             if counts.get(t, (0, 0))[1] == 1 and isinstance(base, ast.Name) and (counts.get(base.id, (0, 0))[1] <= 1 or counts.get(base.id) == (99, 99)) \
-                    and (isinstance(v, ast.Name) or (isinstance(base, ast.Name) and base.id in ('self', 'cls'))):
+                    and isinstance(base, ast.Name):
                 # a parameter of the caller that is re-bound somewhere is not a stable source
                 stores = sum(1 for y in ast.walk(fn) if isinstance(y, ast.Name) and y.id == base.id and isinstance(y.ctx, ast.Store))
                 if stores <= (1 if counts.get(base.id) != (99, 99) else 0):
